@@ -10,7 +10,7 @@ import time
 
 from ..hw import explore_hw, aggregate, rederive
 from ..common import run_configs, finish
-from .arbcommon import build, ArbModel, configs as arb_configs, PHASES
+from .arbcommon import build, ArbModel, configs as arb_configs, phases_for
 
 PID = "C08"
 
@@ -24,8 +24,16 @@ class Observer(ArbModel):
         ctl = self.ctl_vectors()
         resp = self.resp_vectors()
         rej = (0, 1) if self.rejected else (0,)
-        phases = range(PHASES) if len(ctl) * len(resp) <= 70000 else (1, 2, 4)
-        self._letters = [self.letter(c, p, r, j) for c in ctl for p in phases for r in resp for j in rej]
+        nph = phases_for(self.n)
+        if len(ctl) * len(resp) <= 30000:
+            phases = range(nph)
+            self._letters = [self.letter(c, p, r, j) for c in ctl for p in phases for r in resp for j in rej]
+        else:
+            # many initiators: the full control product with one token phase (state exploration, control
+            # isolation, no pre-emption) + every token phase with "all request" / "one requests" controls
+            self._letters = [self.letter(c, 2, r, j) for c in ctl for r in resp[:2] for j in rej]
+            some = [c for c in ctl if sum(x[0] for x in c) in (1, self.n) and all(x[1] == x[0] for x in c)]
+            self._letters += [self.letter(c, p, r, j) for c in some for p in range(nph) for r in resp for j in rej]
         self.n_letters = len(self._letters)
 
     def letters(self, obs):
@@ -33,7 +41,7 @@ class Observer(ArbModel):
 
     def probe_letters(self):
         ctl = tuple((1, 1, 1 if "lock" in self.ifeat[k] else 0) for k in range(self.n))
-        return [self.letter(ctl, p, (0, 0, 0, 0), j) for p in (2, 3, 4, 5) for j in ((0, 1) if self.rejected else (0,))]
+        return [self.letter(ctl, p, (0, 0, 0, 0), j) for p in range(2, phases_for(self.n)) for j in ((0, 1) if self.rejected else (0,))]
 
     def observe(self, obs, letter, outs, hw, hw2):
         pi, ii = self.pi, self.ii
@@ -103,7 +111,7 @@ def main(tier, seed):
 
 ASSUMPTIONS = [
     "Amaranth 0.5.10 front end, build_netlist and Simulator are the trusted base", "rst held at 0",
-    "address/data/select/we/cti/bte driven with 6-phase tokens in which any two initiators differ in every bit "
+    "address/data/select/we/cti/bte driven with 2+2*log2(N)-phase tokens in which any two initiators differ in every bit "
     "position in some phase and every bit takes both values (not all 2^k values)",
     "non-owners' dat_r is not checked (the property does not constrain it)",
 ]
